@@ -411,7 +411,11 @@ func (st *StateDB) CreateValidator(name string, operator, coinbase common.Addres
 		return nil
 	}
 
-	st.validatorJournal.append(validatorCreateChange{address: &mainAddress})
+	change := validatorCreateChange{address: &mainAddress}
+	if old, ok := st.validatorObjects.Load(mainAddress); ok && old != nil {
+		change.prev = old.(*Validator)
+	}
+	st.validatorJournal.append(change)
 	st.setValidator(newVal)
 	st.incrValidatorsStat(newVal)
 	return newVal
